@@ -388,6 +388,19 @@ func R14(floor int, pkgs ...string) Rule {
 							construct = fmt.Sprintf("%s#%d", base, k[base])
 						}
 						have, why := minLen(c.P, x, b)
+						if have < need {
+							// a helper's precondition: the length may be established by every caller
+							// for the argument it passes (facts about SSA values survive the call)
+							if c.P.InAllContexts(in, []ssa.Value{x}, nil, func(at ssa.Instruction, vals []ssa.Value) bool {
+								if at == in || vals[0] == nil {
+									return false
+								}
+								h, _ := minLen(c.P, vals[0], at.Block())
+								return h >= need
+							}) {
+								have, why = need, "established by every caller for the argument it passes"
+							}
+						}
 						if have >= need {
 							c.Ok("R14", construct, in.Pos(), why != "" && why != "array type", "needs len ≥ %d; established: len ≥ %d (%s)", need, have, why)
 						} else {
